@@ -542,3 +542,156 @@ Proof.
   destruct ind; [reflexivity|]. cbn [win]. do 3 f_equal.
   unfold consumed, nlen. cbn [length]. rewrite app_length. lia.
 Qed.
+
+(* ------------------------------------------------------------------ E. unlimited table, for the extension *)
+Definition spec_unl_sl (dbg : bool) (c : scfg) (aa : bool) (fd : CfiRd.fde) : list srow * outcome :=
+  let f := fde_in_of (sc_be c) aa fd in
+  run_spec (sparams_of f) (f_init f) (spec_end (f_asize f) (f_init f) (f_range f))
+    (decode dbg (f_dparams f) (f_cie_off f) (f_cie f)) (fde_items_sl dbg c aa fd).
+Definition within_limits_sl (dbg : bool) (cp : caps) (c : scfg) (aa : bool) (fd : CfiRd.fde) : bool :=
+  let f := fde_in_of (sc_be c) aa fd in
+  fits_run cp (sparams_of f) (f_init f) (decode dbg (f_dparams f) (f_cie_off f) (f_cie f)) (fde_items_sl dbg c aa fd).
+
+Lemma spec_of_sl_unl dbg cp c aa fd :
+  within_limits_sl dbg cp c aa fd = true -> spec_of_sl dbg cp c aa fd = spec_unl_sl dbg c aa fd.
+Proof.
+  unfold within_limits_sl, spec_of_sl, spec_unl_sl. cbv zeta. intros H.
+  match goal with |- run_spec_lim ?c ?p ?i ?e ?ci ?fi = _ => destruct (run_spec_fits c p i e ci fi) as [(_ & E)|(F & _)] end;
+    [exact E|congruence].
+Qed.
+
+Lemma uwi_sl_spec_unl_lem dbg cp c aa sec cx a items fds fd :
+  asz_ok (sc_asz c) -> cap_full (max_stack cp) 0 = false ->
+  entries_all dbg c sec = Ok (items, None) ->
+  parsed_fdes dbg c sec items = Some fds ->
+  find (fun f => covers f a) fds = Some fd ->
+  within_limits_sl dbg cp c aa fd = true ->
+  uwi_result_spec a (fst (spec_unl_sl dbg c aa fd)) (snd (spec_unl_sl dbg c aa fd))
+                  (fst (unwind_info_for_address_sl dbg cp c aa sec cx a)).
+Proof.
+  intros Hc Hcap He Hp Ef Hw.
+  pose proof (uwi_sl_spec_lem dbg cp c aa sec cx a items fds Hc Hcap He Hp) as H.
+  rewrite Ef in H. rewrite (spec_of_sl_unl dbg cp c aa fd Hw) in H. exact H.
+Qed.
+
+(* ------------------------------------------------------------------ F. shape, success iff covered *)
+Lemma fde_rows_sl_invalid dbg cp c aa fd cx :
+  valid_asize (ci_asz (fd_cie fd)) = false ->
+  fst (fde_rows_sl dbg cp c aa fd cx) = ([], Fail EUnsupportedAddressSize).
+Proof. intros H. unfold fde_rows_sl. cbv zeta. cbn [fde_in_of f_asize]. rewrite H. reflexivity. Qed.
+
+Lemma fde_rows_sl_nocap dbg cp c aa fd cx :
+  valid_asize (ci_asz (fd_cie fd)) = true -> cap_full (max_stack cp) 0 = true ->
+  fst (fde_rows_sl dbg cp c aa fd cx) = ([], Crash).
+Proof.
+  intros Hv H. unfold fde_rows_sl, table_new, initialize, reset. cbv zeta. cbn [fde_in_of f_asize]. rewrite Hv, H. reflexivity.
+Qed.
+
+Lemma rows_shape_sl dbg cp c aa fd cx :
+  shape (fd_init fd) (end_address (fde_in_of (sc_be c) aa fd))
+        (map mspan (fst (fst (fde_rows_sl dbg cp c aa fd cx)))) (snd (fst (fde_rows_sl dbg cp c aa fd cx))).
+Proof.
+  destruct (valid_asize (ci_asz (fd_cie fd))) eqn:Hv.
+  - destruct (cap_full (max_stack cp) 0) eqn:Hc.
+    + rewrite (fde_rows_sl_nocap dbg cp c aa fd cx Hv Hc). cbn. split; [exact I|constructor].
+    + destruct (model_eq_spec_sl dbg cp c aa fd cx Hv Hc) as (H1 & H2).
+      rewrite (row_equiv_spans _ _ H1), H2, (end_address_spec (fde_in_of (sc_be c) aa fd) Hv).
+      unfold spec_of_sl. cbv zeta. apply run_spec_lim_shape.
+  - rewrite (fde_rows_sl_invalid dbg cp c aa fd cx Hv). cbn. split; [exact I|constructor].
+Qed.
+
+Lemma fde_uwi_sl_done_succeeds dbg cp c aa fd cx a :
+  snd (fst (fde_rows_sl dbg cp c aa fd cx)) = Done ->
+  fd_init fd <= a -> a < end_address (fde_in_of (sc_be c) aa fd) ->
+  exists r, fst (fde_uwi_sl dbg cp c aa fd cx a) = Ok r /\ row_contains r a = true.
+Proof.
+  intros Hd H1 H2. rewrite fde_uwi_sl_pick. unfold pick.
+  pose proof (rows_shape_sl dbg cp c aa fd cx) as [Hch Hsh]. rewrite Hd in Hsh.
+  destruct Hsh as (l0 & lastx & Hl & Hlast & Ho).
+  rewrite Hl in Hch. rewrite <- Hlast in H2.
+  destruct (chain_covers l0 lastx _ a Hch Ho H1 H2) as (x & Hx & Hx1 & Hx2).
+  rewrite <- Hl in Hx. apply in_map_iff in Hx as (r & Hr & Hin). subst x. cbn [mspan fst snd] in *.
+  assert (Hrc : row_contains r a = true) by (unfold row_contains; lia).
+  destruct (find_exists _ (fun r => row_contains r a) _ r Hin Hrc) as (y & Hy). rewrite Hy.
+  exists y. split; [reflexivity|]. apply find_some in Hy. tauto.
+Qed.
+
+Lemma uwi_sl_succeeds_iff_lem dbg cp c aa sec cx a items fds :
+  asz_ok (sc_asz c) ->
+  entries_all dbg c sec = Ok (items, None) ->
+  parsed_fdes dbg c sec items = Some fds ->
+  (forall fd, find (fun f => covers f a) fds = Some fd ->
+              snd (fst (fde_rows_sl dbg cp c aa fd cx)) = Done) ->
+  ((exists r, fst (unwind_info_for_address_sl dbg cp c aa sec cx a) = Ok r /\ row_contains r a = true)
+   <-> exists fd, In fd fds /\ covers fd a = true).
+Proof.
+  intros Hc He Hp Hdone.
+  unfold unwind_info_for_address_sl. rewrite (linear_lookup_lem dbg c sec a items fds Hc He Hp).
+  destruct (find (fun f => covers f a) fds) as [fd|] eqn:Ef.
+  - split.
+    + intros _. exists fd. apply find_some in Ef. exact Ef.
+    + intros _. pose proof Ef as Ef'. apply find_some in Ef' as [Hin Hcov].
+      assert (Hasz : asz_ok (ci_asz (fd_cie fd))).
+      { pose proof (parsed_fdes_asz dbg c sec items fds Hp Hc) as Hall. rewrite Forall_forall in Hall. apply Hall, Hin. }
+      destruct (end_address_covers (sc_be c) aa fd a Hasz Hcov) as [H1 H2].
+      apply fde_uwi_sl_done_succeeds; [apply Hdone; reflexivity|exact H1|exact H2].
+  - split.
+    + intros (r & Hr & _). discriminate.
+    + intros (fd & Hin & Hcov). eapply find_none in Ef; [|exact Hin]. cbv beta in Ef. congruence.
+Qed.
+
+(* ------------------------------------------------------------------ G. no panic, fuel suffices *)
+Lemma dec_clean_g P (Ht : forall off bs, tame bs (P off bs)) : forall n it, (length (it_bytes it) <= n)%nat ->
+  Forall (fun x => x <> BadPanic /\ x <> BadFuel) (dec_g P it).
+Proof.
+  induction n as [|n IH]; intros it Hn; rewrite (dec_unfold_g P Ht);
+    pose proof (iter_next_cases_g P Ht it) as Hc;
+    destruct (iter_next_g P it) as [[[i|]|e| |] it']; try contradiction;
+    try (constructor; [split; discriminate|]); try constructor.
+  - lia.
+  - apply IH. lia.
+Qed.
+
+Lemma no_panic_sl dbg cp c aa fd cx :
+  cap_full (max_stack cp) 0 = false ->
+  snd (fst (fde_rows_sl dbg cp c aa fd cx)) <> Crash /\ snd (fst (fde_rows_sl dbg cp c aa fd cx)) <> Fuel.
+Proof.
+  intros Hc. destruct (valid_asize (ci_asz (fd_cie fd))) eqn:Hv;
+    [|rewrite (fde_rows_sl_invalid dbg cp c aa fd cx Hv); cbn; split; discriminate].
+  destruct (model_eq_spec_sl dbg cp c aa fd cx Hv Hc) as (_ & H2). rewrite H2.
+  unfold spec_of_sl, run_spec_lim, fde_items_sl. cbv zeta.
+  set (f := fde_in_of (sc_be c) aa fd).
+  assert (Ht : forall off bs, tame bs (parse_insn_sl dbg c aa fd off bs)).
+  { intros off bs. apply parse_insn_sl_tame. apply valid_asize_asz_ok. exact Hv. }
+  pose proof (dec_clean dbg (f_dparams f) _ {| it_off := f_cie_off f; it_bytes := f_cie f |} (le_n _)) as Dc.
+  pose proof (dec_clean_g _ Ht _ {| it_off := CfiRd.off (fd_instr fd); it_bytes := win (fd_instr fd) |} (le_n _)) as Df.
+  change (dec dbg (f_dparams f) {| it_off := f_cie_off f; it_bytes := f_cie f |})
+    with (decode dbg (f_dparams f) (f_cie_off f) (f_cie f)) in Dc.
+  change (dec_g (parse_insn_sl dbg c aa fd) {| it_off := CfiRd.off (fd_instr fd); it_bytes := win (fd_instr fd) |})
+    with (decode_g (parse_insn_sl dbg c aa fd) (CfiRd.off (fd_instr fd)) (win (fd_instr fd))) in Df.
+  pose proof (spec_run_clean cp (sparams_of f) None 0 _ init_state Dc) as Hcl.
+  destruct (spec_run cp (sparams_of f) None 0 init_state (decode dbg (f_dparams f) (f_cie_off f) (f_cie f)))
+    as [rows_c [o_c sc]]. cbn [fst snd] in Hcl.
+  destruct o_c; cbn [snd]; try (split; discriminate); try (destruct Hcl; congruence).
+  destruct (guard_cases cp (Some (s_rules sc)) (with_loc (f_init f) sc)) as [Hg|[Hg|Hg]]; rewrite Hg;
+    try (cbn; split; discriminate).
+  pose proof (spec_run_clean cp (sparams_of f) (Some (s_rules sc))
+                (spec_end (f_asize f) (f_init f) (f_range f)) _ (with_loc (f_init f) sc) Df) as Hcl2.
+  destruct (spec_run cp (sparams_of f) (Some (s_rules sc)) (spec_end (f_asize f) (f_init f) (f_range f))
+              (with_loc (f_init f) sc) (decode_g (parse_insn_sl dbg c aa fd) (CfiRd.off (fd_instr fd)) (win (fd_instr fd))))
+    as [rows [o sf]].
+  exact Hcl2.
+Qed.
+
+Lemma uwi_sl_total_lem dbg cp c aa sec cx a :
+  asz_ok (sc_asz c) -> cap_full (max_stack cp) 0 = false ->
+  fst (unwind_info_for_address_sl dbg cp c aa sec cx a) <> Panic /\
+  fst (unwind_info_for_address_sl dbg cp c aa sec cx a) <> OutOfFuel.
+Proof.
+  intros Hc Hcap. rewrite uwi_sl_compose.
+  pose proof (fde_for_address_safe_lem dbg c sec a Hc) as [S1 S2].
+  destruct (fde_for_address dbg c sec a) as [fd|e| |]; try congruence; [|split; discriminate].
+  unfold pick. destruct (find _ _); [split; discriminate|].
+  pose proof (no_panic_sl dbg cp c aa fd cx Hcap) as [N1 N2].
+  destruct (snd (fst (fde_rows_sl dbg cp c aa fd cx))); cbn [outcome_err]; try congruence; split; discriminate.
+Qed.
